@@ -463,6 +463,7 @@ def _gen_c07(rng, max_stages):
     """random histories over the C07 vocabulary: every dynamic node / scalar of stage j is named r<j>? / v<j>?"""
     n = rng.randint(1, max_stages)
     docs, safes = [], []
+    recs = [False]
     for j in range(1, n + 1):
         cnt = [0]
 
@@ -494,6 +495,11 @@ def _gen_c07(rng, max_stages):
             if r < 0.75:
                 k = rng.choice(["f", "d", "e"])
                 return unsafe(S.SD("eval", ["s", k], ref=[S.skey(k)], form="tag"))
+            if r < 0.78 and depth > 0 and not recs[0]:
+                # files read at evaluation time (one !rec node per history: provenance of what the files hold must be decidable)
+                recs[0] = True
+                names = rng.sample(["rfcall.yaml", "rfdata.yaml", "rfuns.yaml"], rng.randint(1, 2))
+                return S.SD("rec", None, [[S.ikey(i), unsafe(S.leaf(nm))] for i, nm in enumerate(names)], form="tag")
             if r < 0.85 and depth > 0:
                 return unsafe(S.mapping([(k, value(depth - 1)) for k in rng.sample(["a", "b"], rng.randint(0, 2))]))
             if r < 0.9:
@@ -562,6 +568,10 @@ EVAL = {
     },
     "C07": {
         "invariants": ["Inv_C07_Trees", "Inv_C07_Eval"],
+        # files a `!rec` node may name (written to the directory the library runs in, handed to TLC as JSON: spec/AyFiles.tla)
+        "rec_files": {"rfcall.yaml": S.mapping([("x", S.SD("call", None, [], fn="vmod.r9a", form="tag")), ("y", S.leaf("vmod.r9y"))]),
+                      "rfdata.yaml": S.mapping([("x", S.leaf("vmod.r9v"))]),
+                      "rfuns.yaml": S.mapping([("x", S.with_tag(S.leaf("vmod.r9w"), "unsafe"))])},
         "safes": "{TRUE, FALSE}", "with_docs": True,
         "exh": {"quick": [("C07_Docs", 1, 2, "C07_Range")], "thorough": [("C07_Docs", 1, 2, "C07_Range"), ("C07_Docs3", 3, 3, "C07_Range3")]},
         "mutations": [{"switch": "DefaultSafeOverwrite", "docs": "C07_Docs", "range": "C07_Range", "stages": (2, 2), "expect": ["Inv_C07_Trees", "Inv_C07_Eval"]},
